@@ -21,10 +21,284 @@ package client
 //@    && (forall j int :: 0 <= j && j < firstnl(s) ==> !isNL(s[j]))
 //@    && (firstnl(s) < len(s) ==> isNL(s[firstnl(s)]))
 
+//@ specfn cutnl(s string) string := s[:firstnl(s)]
+
 //@ func cutNewLines
 //@   property C08
 //@   safety C08
-//@   ensures result == s[:firstnl(s)]
+//@   ensures result == cutnl(s)
+//@ end
+
+// verbPrefix(x, V): x is the bare verb V or starts with V followed by a space.
+//@ pred verbPrefix(x string, V string) := len(x) >= len(V) && x[:len(V)] == V && (len(x) == len(V) || x[len(V)] == ' ')
+
+// Every event appended to the trace in [from, to) is a send on channel ch of
+// one whole line without CR/LF that starts with the verb V.
+//@ pred sendsOnly(tr trace, from int, to int, ch ref, V string) := forall k int :: from <= k && k < to ==>
+//@     tr[k].kind == kindof("send") && tr[k].obj == ch && noCRLF(tr[k].str) && verbPrefix(tr[k].str, V)
+
+//@ pred connOK(conn *Conn) := conn != nil && conn.cfg != nil
+
+// Raw is the only function that sends on conn.out (closure obligation C08/closure).
+//@ func (*Conn).Raw
+//@   property C08
+//@   safety C08
+//@   requires conn != nil
+//@   modifies $tr
+//@   ensures $trlen == old($trlen) + 1
+//@   ensures $tr[old($trlen)] == ev("send", conn.out, cutnl(rawline))
+//@   ensures noCRLF($tr[old($trlen)].str)
+//@ end
+
+//@ func (*Conn).Pass
+//@   property C08
+//@   safety C08
+//@   requires conn != nil
+//@   modifies $tr
+//@   ensures $trlen == old($trlen) + 1 && $tr[old($trlen)] == ev("send", conn.out, cutnl("PASS " + password))
+//@   ensures sendsOnly($tr, old($trlen), $trlen, conn.out, "PASS")
+//@ end
+
+//@ func (*Conn).Nick
+//@   property C08
+//@   safety C08
+//@   requires conn != nil
+//@   modifies $tr
+//@   ensures $trlen == old($trlen) + 1 && $tr[old($trlen)] == ev("send", conn.out, cutnl("NICK " + nick))
+//@   ensures sendsOnly($tr, old($trlen), $trlen, conn.out, "NICK")
+//@ end
+
+//@ func (*Conn).User
+//@   property C08
+//@   safety C08
+//@   requires conn != nil
+//@   modifies $tr
+//@   ensures $trlen == old($trlen) + 1 && $tr[old($trlen)] == ev("send", conn.out, cutnl("USER " + ident + " 12 * :" + name))
+//@   ensures sendsOnly($tr, old($trlen), $trlen, conn.out, "USER")
+//@ end
+
+//@ func (*Conn).Join
+//@   property C08
+//@   safety C08
+//@   requires conn != nil
+//@   modifies $tr
+//@   ensures sendsOnly($tr, old($trlen), $trlen, conn.out, "JOIN")
+//@ end
+
+//@ func (*Conn).Part
+//@   property C08
+//@   safety C08
+//@   requires conn != nil
+//@   modifies $tr
+//@   ensures sendsOnly($tr, old($trlen), $trlen, conn.out, "PART")
+//@ end
+
+//@ func (*Conn).Kick
+//@   property C08
+//@   safety C08
+//@   requires conn != nil
+//@   modifies $tr
+//@   ensures sendsOnly($tr, old($trlen), $trlen, conn.out, "KICK")
+//@ end
+
+//@ func (*Conn).Whois
+//@   property C08
+//@   safety C08
+//@   requires conn != nil
+//@   modifies $tr
+//@   ensures sendsOnly($tr, old($trlen), $trlen, conn.out, "WHOIS")
+//@ end
+
+//@ func (*Conn).Who
+//@   property C08
+//@   safety C08
+//@   requires conn != nil
+//@   modifies $tr
+//@   ensures sendsOnly($tr, old($trlen), $trlen, conn.out, "WHO")
+//@ end
+
+//@ func (*Conn).Topic
+//@   property C08
+//@   safety C08
+//@   requires conn != nil
+//@   modifies $tr
+//@   ensures sendsOnly($tr, old($trlen), $trlen, conn.out, "TOPIC")
+//@ end
+
+//@ func (*Conn).Mode
+//@   property C08
+//@   safety C08
+//@   requires conn != nil
+//@   modifies $tr
+//@   ensures sendsOnly($tr, old($trlen), $trlen, conn.out, "MODE")
+//@ end
+
+//@ func (*Conn).Away
+//@   property C08
+//@   safety C08
+//@   requires conn != nil
+//@   modifies $tr
+//@   ensures sendsOnly($tr, old($trlen), $trlen, conn.out, "AWAY")
+//@ end
+
+//@ func (*Conn).Invite
+//@   property C08
+//@   safety C08
+//@   requires conn != nil
+//@   modifies $tr
+//@   ensures sendsOnly($tr, old($trlen), $trlen, conn.out, "INVITE")
+//@ end
+
+//@ func (*Conn).Oper
+//@   property C08
+//@   safety C08
+//@   requires conn != nil
+//@   modifies $tr
+//@   ensures sendsOnly($tr, old($trlen), $trlen, conn.out, "OPER")
+//@ end
+
+//@ func (*Conn).VHost
+//@   property C08
+//@   safety C08
+//@   requires conn != nil
+//@   modifies $tr
+//@   ensures sendsOnly($tr, old($trlen), $trlen, conn.out, "VHOST")
+//@ end
+
+//@ func (*Conn).Ping
+//@   property C08
+//@   safety C08
+//@   requires conn != nil
+//@   modifies $tr
+//@   ensures sendsOnly($tr, old($trlen), $trlen, conn.out, "PING")
+//@ end
+
+//@ func (*Conn).Pong
+//@   property C08
+//@   safety C08
+//@   requires conn != nil
+//@   modifies $tr
+//@   ensures sendsOnly($tr, old($trlen), $trlen, conn.out, "PONG")
+//@ end
+
+//@ func (*Conn).Authenticate
+//@   property C08
+//@   safety C08
+//@   requires conn != nil
+//@   modifies $tr
+//@   ensures sendsOnly($tr, old($trlen), $trlen, conn.out, "AUTHENTICATE")
+//@ end
+
+//@ func (*Conn).Quit
+//@   property C08
+//@   safety C08
+//@   requires connOK(conn)
+//@   modifies $tr
+//@   ensures sendsOnly($tr, old($trlen), $trlen, conn.out, "QUIT")
+//@ end
+
+//@ func (*Conn).Privmsg
+//@   property C08
+//@   safety C08
+//@   requires connOK(conn)
+//@   modifies $tr
+//@   maintains sendsOnly($tr, old($trlen), $trlen, conn.out, "PRIVMSG")
+//@   loop 0:
+//@     invariant true
+//@ end
+
+//@ func (*Conn).Notice
+//@   property C08
+//@   safety C08
+//@   requires connOK(conn)
+//@   modifies $tr
+//@   maintains sendsOnly($tr, old($trlen), $trlen, conn.out, "NOTICE")
+//@   loop 0:
+//@     invariant true
+//@ end
+
+//@ func (*Conn).Ctcp
+//@   property C08
+//@   safety C08
+//@   requires connOK(conn)
+//@   modifies $tr
+//@   maintains sendsOnly($tr, old($trlen), $trlen, conn.out, "PRIVMSG")
+//@   loop 0:
+//@     invariant true
+//@ end
+
+//@ func (*Conn).CtcpReply
+//@   property C08
+//@   safety C08
+//@   requires connOK(conn)
+//@   modifies $tr
+//@   maintains sendsOnly($tr, old($trlen), $trlen, conn.out, "NOTICE")
+//@   loop 0:
+//@     invariant true
+//@ end
+
+//@ func (*Conn).Cap
+//@   property C08
+//@   safety C08
+//@   requires conn != nil
+//@   modifies $tr
+//@   maintains sendsOnly($tr, old($trlen), $trlen, conn.out, "CAP")
+//@   loop 0:
+//@     invariant true
+//@ end
+
+//@ func (*Conn).Privmsgln
+//@   property C08
+//@   safety C08
+//@   requires connOK(conn)
+//@   modifies $tr
+//@   ensures sendsOnly($tr, old($trlen), $trlen, conn.out, "PRIVMSG")
+//@ end
+
+//@ func (*Conn).Privmsgf
+//@   property C08
+//@   safety C08
+//@   requires connOK(conn)
+//@   modifies $tr
+//@   ensures sendsOnly($tr, old($trlen), $trlen, conn.out, "PRIVMSG")
+//@ end
+
+//@ func (*Conn).Version
+//@   property C08
+//@   safety C08
+//@   requires connOK(conn)
+//@   modifies $tr
+//@   ensures sendsOnly($tr, old($trlen), $trlen, conn.out, "PRIVMSG")
+//@ end
+
+//@ func (*Conn).Action
+//@   property C08
+//@   safety C08
+//@   requires connOK(conn)
+//@   modifies $tr
+//@   ensures sendsOnly($tr, old($trlen), $trlen, conn.out, "PRIVMSG")
+//@ end
+
+// splitMessage / splitArgs: what the senders need (C08); the splitting
+// contract proper is C11's.
+//@ func splitMessage
+//@   property C11
+//@   safety C11
+//@   modifies elems(msgs)
+//@   ensures fresh(msgs) && len(msgs) >= 1
+//@   loop 0:
+//@     invariant true
+//@ end
+
+//@ func splitArgs
+//@   property C19
+//@   safety C19
+//@   modifies elems(result)
+//@   ensures fresh(result) || len(result) == 0
+//@   loop 0:
+//@     invariant true
+//@   loop 1:
+//@     invariant true
 //@ end
 
 // ---------------------------------------------------------------------------
